@@ -546,3 +546,84 @@ def typed_accessors(acc, state):
         H.check("C15:typed-accessor-of-an-absent-parameter-is-none", got is None)
     else:
         H.check("C15:typed-accessor-returns-the-numeric-content", got == number / scale if scale != 1 else got == number)
+
+
+# ------------------------------------------------------------------------------------- complex comparams from XML
+# The positions of the sub-parameters of a COMPLEX-COMPARAM and the positions of the values in a COMPLEX-VALUE are what
+# get_subvalue() and the typed accessors pair up.  Contract of ComplexComparam.from_et: subparams = the COMPARAM and
+# COMPLEX-COMPARAM children in document order; of create_complex_value_from_et: one entry per SIMPLE-VALUE /
+# COMPLEX-VALUE child in document order, an empty SIMPLE-VALUE being the empty string (which get_subvalue replaces by
+# the default of the sub-parameter at that position).  Concrete documents, the real parsing code interpreted.
+from xml.etree import ElementTree  # noqa: E402
+
+from odxtools.complexcomparam import create_complex_value_from_et  # noqa: E402
+
+
+def _cp(name, default="0"):
+    return (f'<COMPARAM ID="cp.{name}" PARAM-CLASS="COM" CPTYPE="STANDARD" CPUSAGE="TESTER"><SHORT-NAME>{name}'
+            f'</SHORT-NAME><PHYSICAL-DEFAULT-VALUE>{default}</PHYSICAL-DEFAULT-VALUE>'
+            f'<DATA-OBJECT-PROP-REF ID-REF="dop.u32"/></COMPARAM>')
+
+
+def _ccp(name, inner):
+    return (f'<COMPLEX-COMPARAM ID="ccp.{name}" PARAM-CLASS="COM" CPTYPE="STANDARD" CPUSAGE="TESTER"><SHORT-NAME>{name}'
+            f'</SHORT-NAME>{inner}</COMPLEX-COMPARAM>')
+
+
+SUBPARAM_ORDERS = {
+    "simple-only": ["a", "b", "c"],
+    "complex-first": ["#n", "a", "b"],
+    "complex-in-the-middle": ["a", "#n", "b"],
+    "complex-last": ["a", "b", "#n"],
+    "two-complex": ["#n", "a", "#m"],
+}
+VALUE_SHAPES = {
+    "all-given": ["1", "2", "3"],
+    "first-empty": ["", "2", "3"],
+    "middle-empty": ["1", "", "3"],
+    "last-empty": ["1", "2", ""],
+    "trailing-omitted": ["1", "2"],
+    "nested": ["1", ["7", ""], "3"],
+}
+
+
+def _value_xml(vals):
+    out = ""
+    for v in vals:
+        if isinstance(v, list):
+            out += "<COMPLEX-VALUE>" + _value_xml(v) + "</COMPLEX-VALUE>"
+        elif v == "":
+            out += "<SIMPLE-VALUE/>"
+        else:
+            out += f"<SIMPLE-VALUE>{v}</SIMPLE-VALUE>"
+    return out
+
+
+@harness(props=["C15"], strength="B",
+         family=lambda t, s: [{"order": o, "values": "all-given"} for o in SUBPARAM_ORDERS] +
+         [{"order": "simple-only", "values": v} for v in VALUE_SHAPES],
+         bound="five orders of simple and complex sub-parameters, six shapes of complex values (empty, omitted and "
+         "nested entries); concrete XML documents",
+         functions=[ComplexComparam.from_et, create_complex_value_from_et, ComparamInstance.get_subvalue],
+         covers=["parsed"], crosscheck=False)
+def complex_comparam_from_xml(order, values):
+    """sub-parameters and sub-values keep their document positions, so that get_subvalue(name) is the value written at
+    the position of that sub-parameter (or its default where the value is empty or omitted)"""
+    names = SUBPARAM_ORDERS[order]
+    inner = "".join([_ccp(n[1:], _cp(n[1:] + "1")) if n.startswith("#") else _cp(n, default="d" + n) for n in names])
+    et = ElementTree.fromstring(_ccp("cc", inner))
+    spec = ComplexComparam.from_et(et, FR)
+    H.cover("parsed")
+    H.check("C15:sub-parameters-keep-their-document-order",
+            [sp.short_name for sp in spec.subparams] == [n.lstrip("#") for n in names])
+    vals = VALUE_SHAPES[values]
+    got = create_complex_value_from_et(ElementTree.fromstring("<COMPLEX-VALUE>" + _value_xml(vals) + "</COMPLEX-VALUE>"))
+    H.check("C15:sub-values-keep-their-document-positions-empty-ones-included", got == vals)
+    if order == "simple-only":
+        inst = mk_instance(spec, "ccp.cc", got, "UDS")
+        for i, n in enumerate(names):
+            want = vals[i] if i < len(vals) and vals[i] != "" else "d" + n
+            if isinstance(want, list):
+                continue
+            H.check("C15:sub-value-is-the-one-written-at-the-sub-parameters-position-else-its-default",
+                    inst.get_subvalue(n) == want)
